@@ -298,7 +298,11 @@ class Explorer:
         self.seen.add(d0)
         self.stats["states"] += 1
         # stack entries: (world, history(tuple chain), events list, next index)
-        stack = [(world0, None, self._pick(enabled_events(world0, spec), 0), 0, 0)]
+        evs0 = self._pick(enabled_events(world0, spec), 0)
+        first = getattr(self, "first_filter", None)
+        if first is not None:  # sharding: this explorer only takes the given first event
+            evs0 = [e for e in evs0 if list(e) == list(first)]
+        stack = [(world0, None, evs0, 0, 0)]
         self._end_or_continue(world0, None, stack[0][2], report)
         while stack:
             world, hist, events, idx, depth = stack.pop()
